@@ -122,7 +122,14 @@ verilog_keyword = [
   "ref", "return", "sequence", "shortint", "shortreal", "solve", "static",
   "string", "struct", "super", "tagged", "this", "throughout", "timeprecision",
   "timeunit", "type", "typedef", "union", "unique", "var", "virtual", "void",
-  "wait_order", "wildcard", "with", "within"
+  "wait_order", "wildcard", "with", "within",
+  # SystemVerilog-2009 reserved keywords
+  "accept_on", "checker", "endchecker", "eventually", "global", "implies",
+  "let", "nexttime", "reject_on", "restrict", "s_always", "s_eventually",
+  "s_nexttime", "s_until", "s_until_with", "strong", "sync_accept_on",
+  "sync_reject_on", "unique0", "until", "until_with", "untyped", "weak",
+  # SystemVerilog-2012 reserved keywords
+  "implements", "interconnect", "nettype", "soft",
 ]
 
 verilog_reserved = set( verilog_keyword )
